@@ -48,6 +48,8 @@ pub enum MsgFault {
     ArrayClear { index: usize },
     /// only the first `keep` elements of the k-th array arrive (tail fragments lost)
     ArrayTruncate { index: usize, keep: usize },
+    /// the k-th object field (document order over all objects) is missing from the message
+    FieldDrop { index: usize },
     /// replace the k-th occurrence of a gate/op name
     NameReplace { index: usize, with: String },
     /// storage-level damage of Bristol text
@@ -107,6 +109,30 @@ fn name_occurrences(msg: &[u8]) -> Vec<(usize, usize)> {
     }
     out.sort();
     out
+}
+
+fn walk_objects(v: &mut serde_json::Value, f: &mut dyn FnMut(&mut serde_json::Map<String, serde_json::Value>)) {
+    match v {
+        serde_json::Value::Array(a) => {
+            for x in a.iter_mut() {
+                walk_objects(x, f);
+            }
+        }
+        serde_json::Value::Object(o) => {
+            f(o);
+            for (_, x) in o.iter_mut() {
+                walk_objects(x, f);
+            }
+        }
+        _ => {}
+    }
+}
+
+pub fn field_census(msg: &[u8]) -> usize {
+    let Ok(mut v) = serde_json::from_slice::<serde_json::Value>(msg) else { return 0 };
+    let mut n = 0;
+    walk_objects(&mut v, &mut |o| n += o.len());
+    n
 }
 
 fn walk_arrays(v: &mut serde_json::Value, f: &mut dyn FnMut(&mut Vec<serde_json::Value>)) {
@@ -202,6 +228,28 @@ pub fn apply_fault(msg: &mut Vec<u8>, f: &MsgFault) -> bool {
             let occ = name_occurrences(msg);
             if let Some(&(s, e)) = occ.get(*index) {
                 msg.splice(s..e, with.bytes());
+            }
+        }
+        MsgFault::FieldDrop { index } => {
+            if let Ok(mut v) = serde_json::from_slice::<serde_json::Value>(msg) {
+                let mut k = 0usize;
+                let mut done = false;
+                walk_objects(&mut v, &mut |o| {
+                    if done {
+                        return;
+                    }
+                    if *index >= k && *index < k + o.len() {
+                        let key = o.keys().nth(*index - k).cloned();
+                        if let Some(key) = key {
+                            o.remove(&key);
+                        }
+                        done = true;
+                    }
+                    k += o.len();
+                });
+                if done {
+                    *msg = serde_json::to_vec(&v).unwrap_or_default();
+                }
             }
         }
         MsgFault::ArrayTruncate { index, keep } => {
@@ -755,7 +803,13 @@ fn draw_faults(p: &mut Prng, msg: &[u8], ch: Channel) -> Vec<MsgFault> {
                 let (delta, xor) = *p.pick(&[(1i64, 0u64), (-1, 0), (2, 0), (0, 1), (0, 32), (32, 0), (0, 64), (64, 0), (0, 16), (16, 0), (0, 128)]);
                 MsgFault::NumShift { index: p.usize_below(ntok), delta, xor }
             }
-            9 => MsgFault::ElemDup { index: p.usize_below(nelem.max(1)) },
+            9 => {
+                if p.chance(1, 3) {
+                    MsgFault::FieldDrop { index: p.usize_below(field_census(msg).max(1)) }
+                } else {
+                    MsgFault::ElemDup { index: p.usize_below(nelem.max(1)) }
+                }
+            }
             10 | 11 => MsgFault::ElemDrop { index: p.usize_below(nelem.max(1)) },
             12 => {
                 if p.chance(1, 2) {
@@ -939,6 +993,10 @@ fn run_sweep(base: &World, acc: &mut Acc) {
             for n in NAMES {
                 go(vec![MsgFault::NameReplace { index, with: n.to_string() }], acc);
             }
+        }
+        // every object field missing (a receiver with lenient defaults would accept the message)
+        for index in 0..field_census(&msg).min(64) {
+            go(vec![MsgFault::FieldDrop { index }], acc);
         }
         // single arrays truncated to their first elements
         let layout = array_layout(&msg);
